@@ -18,6 +18,7 @@ import (
 	sdk "github.com/cosmos/cosmos-sdk/types"
 	distrkeeper "github.com/cosmos/cosmos-sdk/x/distribution/keeper"
 	distrtypes "github.com/cosmos/cosmos-sdk/x/distribution/types"
+	stakingtypes "github.com/cosmos/cosmos-sdk/x/staking/types"
 	"github.com/ethereum/go-ethereum/crypto"
 
 	fxtypes "github.com/functionx/fx-core/v8/types"
@@ -141,6 +142,16 @@ func newWorld(seed int64, modules []string) *world {
 	sp, err := c.App.StakingKeeper.GetParams(c.Ctx)
 	lib.Must(err)
 	w.ubtime = int64(sp.UnbondingTime / time.Second)
+	// an ordinary delegator puts 20000 FX on every validator (real staking Delegate), so that staking slashes in the
+	// histories never push a validator out of the bonded set (lib.NewChain gives them 100 FX each)
+	other := lib.CosmosKey(seed, "c13/delegator", 0)
+	c.Mint(other.Acc(), lib.FX(100000))
+	for _, k := range c.ValKeys {
+		val, e := c.App.StakingKeeper.GetValidator(c.Ctx, k.Val())
+		lib.Must(e)
+		_, e = c.App.StakingKeeper.Delegate(c.Ctx, other.Acc(), lib.FX(20000).Amount, stakingtypes.Unbonded, val, true)
+		lib.Must(e)
+	}
 	for i, name := range modules {
 		m := &modw{w: w, idx: i, name: name, x: c.X(name), accKey: map[int]lib.Key{}, extKey: map[int]*ecdsa.PrivateKey{},
 			accID: map[string]int{}, extID: map[string]int{}, nextBat: 1, nextCall: 1}
